@@ -5,6 +5,7 @@ import (
 	"os"
 	"path/filepath"
 	"strings"
+	"sync/atomic"
 
 	"github.com/avfs/avfs"
 	"github.com/avfs/avfs/vfs/memfs"
@@ -106,7 +107,21 @@ func (k *c13) cmp(fn, in, got, want string, extraClass string) {
 	}
 }
 
+// the call in progress, for the CPU watcher (the functions under test take no lock: a call that never returns is a
+// pure CPU loop which only a watcher outside the workload goroutine can see)
+var (
+	c13Calls atomic.Int64
+	c13Cur   atomic.Pointer[string]
+)
+
+func c13Mark(format string, args ...any) {
+	s := fmt.Sprintf(format, args...)
+	c13Cur.Store(&s)
+	c13Calls.Add(1)
+}
+
 func (k *c13) unary(s string) {
+	c13Mark("%s: unary functions of %q", k.ref.name, s)
 	v, r := k.vfs, k.ref
 	vc := volClass(r, s)
 	q := fmt.Sprintf("%q", s)
@@ -146,12 +161,41 @@ func errStr(err error) string {
 }
 
 func (k *c13) binary(a, b string) {
+	c13Mark("%s: Join/Rel/Match of (%q, %q)", k.ref.name, a, b)
 	v, r := k.vfs, k.ref
 	vc := volClass(r, a) + "," + volClass(r, b)
 	q := fmt.Sprintf("%q,%q", a, b)
 	k.cmp("Join", q, safe(func() string { return v.Join(a, b) }), r.join(a, b), vc)
-	k.cmp("Rel", q, safe(func() string { x, err := v.Rel(a, b); return x + "|" + errStr(err) }), func() string { x, err := r.rel(a, b); return x + "|" + errStr(err) }(), vc)
+	wantRel := ""
+	if c13RefRelLoops(r, a, b) {
+		// path/filepath.Rel of the toolchain itself does not terminate on this pair (a UNC volume and the root of the same
+		// volume): the reference is not called; the two operands name the same directory, the answer is "."
+		wantRel = ".|nil"
+		k.c.Rep.Count("rel_pairs_on_which_the_toolchain_loops", 1)
+	} else {
+		x, err := r.rel(a, b)
+		wantRel = x + "|" + errStr(err)
+	}
+	k.cmp("Rel", q, safe(func() string { x, err := v.Rel(a, b); return x + "|" + errStr(err) }), wantRel, vc)
 	k.cmp("Match", q, safe(func() string { x, err := v.Match(a, b); return fmt.Sprint(x) + "|" + errStr(err) }), func() string { x, err := r.match(a, b); return fmt.Sprint(x) + "|" + errStr(err) }(), vc)
+}
+
+// c13RefRelLoops tells whether Rel of the reference would spin forever: base is a bare UNC-like volume (longer than a
+// drive) and targ is the root directory of the same volume - after the volume is cut both are a single separator and the
+// element loop of Rel never ends.
+func c13RefRelLoops(r *pathRef, a, b string) bool {
+	if r.name != "Windows" {
+		return false
+	}
+	bv, tv := r.volume(a), r.volume(b)
+	if len(bv) <= 2 || !strings.EqualFold(bv, tv) {
+		return false
+	}
+	base, targ := r.clean(a), r.clean(b)
+	if strings.EqualFold(base, targ) {
+		return false
+	}
+	return base[len(bv):] == "" && targ[len(tv):] == `\`
 }
 
 var c13Alphabet = []string{"a", "B", ".", "/", `\`, ":", "?", "*", "[", "]", "-", "^", "é"}
@@ -207,6 +251,7 @@ func (k *c13) fuzz(n int) {
 }
 
 func (k *c13) triple(a, b, d string) {
+	c13Mark("%s: Join(%q, %q, %q)", k.ref.name, a, b, d)
 	q := fmt.Sprintf("%q,%q,%q", a, b, d)
 	vc := volClass(k.ref, a) + "," + volClass(k.ref, b) + "," + volClass(k.ref, d)
 	k.cmp("Join3", q, safe(func() string { return k.vfs.Join(a, b, d) }), k.ref.join(a, b, d), vc)
@@ -225,6 +270,7 @@ func (k *c13) partsOf(p string) []string {
 }
 
 func (k *c13) iterate(p string, repls []string) {
+	c13Mark("%s: PathIterator over %q", k.ref.name, p)
 	v := k.vfs
 	want := k.partsOf(p)
 	fail := func(kind, what string) {
@@ -324,12 +370,16 @@ func init() {
 		Shards: shards(2, 16),
 		Meta: func(tier string) rt.Meta {
 			return rt.Meta{Level: "exploration", MinEvals: 50000, MinDistinct: 20, Exhaustive: true,
-				Rule:        "differential against the toolchain: T=Linux path/filepath of the host; T=Windows a copy of the toolchain's internal/filepathlite + path/filepath Windows code generated by scripts/gen_winpath.py (self-tested). Exhaustive over all strings up to the length bound over a 13-symbol alphabet (unary functions), all pairs up to a smaller bound (Join, Rel, Match), then seeded random inputs of length <= 40. PathIterator: all clean absolute paths over {a,b,sep,.} up to 7 symbols, every part index x every replacement string. Signature = OS type | function | volume-prefix class of the input(s) | outcome; non-trivial = input longer than one byte. 'exhaustive' refers to the enumerated part.",
+				Rule:        "differential against the toolchain: T=Linux path/filepath of the host; T=Windows a copy of the toolchain's internal/filepathlite + path/filepath Windows code generated by scripts/gen_winpath.py (self-tested). Exhaustive over all strings up to the length bound over a 13-symbol alphabet (unary functions), all pairs up to a smaller bound plus asymmetric pairs (<=1 with <=4/5 symbols, <=2 with <=3/4, both orders) (Join, Rel, Match), then seeded random inputs of length <= 40. PathIterator: all clean absolute paths over {a,b,sep,.} up to 7 symbols, every part index x every replacement string. Signature = OS type | function | volume-prefix class of the input(s) | outcome; non-trivial = input longer than one byte. 'exhaustive' refers to the enumerated part.",
 				Assumptions: []string{"Windows Abs is compared only where Go's result is lexical (absolute inputs, plain relative inputs)", "the reference is generated from the toolchain that builds the harness (" + "go version in evidence notes)"}}
 		},
 		Run: func(c *rt.Ctx) {
 			hook.Sequential()
 			_ = os.Chdir("/")
+			rt.CPUWatch(20, c13Calls.Load, func() string { return *c13Cur.Load() }, func(desc string) {
+				c.Disagree("no-return|"+strings.SplitN(desc, " of ", 2)[0], "a lexical path call consumed more than 20 s of CPU time without returning (inputs of at most 40 bytes normally take microseconds): "+desc, map[string]any{"call": desc})
+				c.EmitAndExit()
+			})
 			if avfs.BuildFeatures()&avfs.FeatSetOSType == 0 {
 				c.Rep.Inconclusive = append(c.Rep.Inconclusive, "harness built without the avfs_setostype tag")
 				return
@@ -347,7 +397,7 @@ func init() {
 				k := &c13{c: c, vfs: v, ref: ref}
 				// shard the enumerations by index
 				i := 0
-				enumStrings(c13Alphabet, c.Pick(4, 5), func(s string) {
+				enumStrings(c13Alphabet, c.Pick(5, 6), func(s string) {
 					i++
 					if i%c.NShards == c.Shard {
 						k.unary(s)
@@ -363,6 +413,23 @@ func init() {
 						k.binary(a, b)
 					}
 				}
+				// asymmetric pairs: a short element with a longer one, in both orders (a separator or a drive joined with a
+				// device / root-local-device / UNC prefix needs 1 + 3..5 symbols)
+				for _, ab := range [][2]int{{1, c.Pick(4, 5)}, {2, c.Pick(3, 4)}} {
+					var short []string
+					enumStrings(c13Alphabet, ab[0], func(s string) { short = append(short, s) })
+					n := 0
+					enumStrings(c13Alphabet, ab[1], func(b string) {
+						n++
+						if n%c.NShards != c.Shard || len(b) <= c.Pick(2, 3) {
+							return
+						}
+						for _, a := range short {
+							k.binary(a, b)
+							k.binary(b, a)
+						}
+					})
+				}
 				if c.Shard == 0 {
 					var tiny []string
 					enumStrings(c13Alphabet, 1, func(s string) { tiny = append(tiny, s) })
@@ -374,7 +441,7 @@ func init() {
 						}
 					}
 				}
-				k.fuzz(c.Pick(30000, 1200000) / c.NShards)
+				k.fuzz(c.Pick(300000, 12000000) / c.NShards)
 				// PathIterator
 				sep := ref.sep
 				root := sep
